@@ -925,6 +925,10 @@ class Interp:
                     t = self.read(a.root, a.path)
                     if isinstance(t, Slice):
                         return t.len
+                    if isinstance(t, Buf):
+                        return t.len
+                    if isinstance(t, Struct) and t.ty == '[array]':
+                        return bv(len(t.fields))
                 raise Unsupported('PtrMetadata of %r' % (a,))
             raise Unsupported('unop ' + rv[1])
         if k == 'cast':
@@ -935,7 +939,17 @@ class Interp:
             items = [self.eval_operand(frame, o) for o in rv[1]]
             return Struct('[array]', items)
         if k == 'repeat':
-            raise Unsupported('array repeat')
+            e = self.eval_operand(frame, rv[1])
+            cnt = rv[2].strip()
+            m = re.match(r'^(?:const )?(\d+)(?:_usize)?$', cnt)
+            if not m:
+                raise Unsupported('array repeat with a non-literal count: ' + cnt)
+            n = int(m.group(1))
+            if z3.is_bv(e) and e.size() == 8:
+                return Buf(z3.K(BV64, e), n, max(n, 1), 'array')
+            if n > 64:
+                raise Unsupported('array repeat of %d non-byte elements' % n)
+            return Struct('[array]', [copy_val(e) for _ in range(n)])
         if k == 'closure':
             return Struct(rv[1], [self.eval_operand(frame, o) for _, o in rv[2]])
         if k == 'adt':
@@ -1087,6 +1101,8 @@ class Interp:
             # unsizing:  &[T; N] -> &[T] ,  Box<T> -> Box<dyn Tr> ,  fn item -> fn ptr
             if isinstance(v, Ref):
                 t = self.read(v.root, v.path)
+                if isinstance(t, Buf):
+                    return whole(t, False)          # &[u8; N] -> &[u8]
                 if isinstance(t, Struct) and t.ty == '[array]':
                     holder = VecObj(t.fields)
                     # keep aliasing: the array cell now holds the list object
